@@ -470,6 +470,79 @@ fn check(case: &Case, obs: &mut Obs) -> Result<(), Failure> {
         }
     }
 
+    // --- stack-pointer arithmetic has the width of stack_pointer() ---------------------------------
+    // Idioms whose effect on the stack pointer is a plain +-delta, lifted and run from a stack
+    // pointer in the upper part of the address space (above 4 GiB on the 64-bit machines): the
+    // full-width stack pointer must move by exactly that delta.
+    {
+        let sp = a.stack_pointer();
+        let w = (a.word_size() / 8) as i64;
+        let idioms: Vec<(Vec<u8>, i64, &str)> = match name {
+            "x86" => vec![(vec![0x50], -w, "push eax"), (vec![0x58], w, "pop eax"), (vec![0x83, 0xEC, 0x10], -16, "sub esp,16"), (vec![0xC2, 0x10, 0x00], w + 16, "ret 16")],
+            "amd64" => vec![(vec![0x50], -w, "push rax"), (vec![0x58], w, "pop rax"), (vec![0x48, 0x83, 0xEC, 0x10], -16, "sub rsp,16"), (vec![0xC2, 0x10, 0x00], w + 16, "ret 16"), (vec![0xC3], w, "ret")],
+            "mips" | "mipsel" => vec![(word(case.arch, 0x27BD_FFE0), -32, "addiu $sp,$sp,-32")],
+            "ppc" => vec![(word(case.arch, 0x9421_FFF0), -16, "stwu r1,-16(r1)"), (word(case.arch, 0x3821_0010), 16, "addi r1,r1,16")],
+            _ => vec![(word(case.arch, 0xD100_43FF), -16, "sub sp,sp,#16"), (word(case.arch, 0x9100_43FF), 16, "add sp,sp,#16"), (word(case.arch, 0xA9BF_7BFD), -16, "stp x29,x30,[sp,#-16]!"), (word(case.arch, 0xA8C1_7BFD), 16, "ldp x29,x30,[sp],#16")],
+        };
+        let bits = sp.bits();
+        let sp0: u64 = if bits == 64 { 0x0000_7ffd_1234_5000 } else { 0x7ffd_5000 };
+        let big = a.endian() == Endian::Big;
+        for (code, delta, text) in idioms {
+            let r = match guard(|| a.translator().translate_block(&code, 0x10000, &Options::default())) {
+                Ok(Ok(r)) => r,
+                _ => continue,
+            };
+            let mut st = fv::refil::RefState { scalars: BTreeMap::new(), mem: fv::refil::RefMem::new(big) };
+            // every scalar the idiom mentions gets a value; the stack pointer the high one
+            for (_, cfg) in r.instructions() {
+                for b in cfg.blocks() {
+                    for i in b.instructions() {
+                        for sc in i.operation().scalars_read().unwrap_or_default().into_iter().chain(i.operation().scalars_written().unwrap_or_default()) {
+                            st.scalars.entry(sc.name().to_string()).or_insert_with(|| fv::bv::Bv::from_u64(0x40, sc.bits()));
+                        }
+                    }
+                }
+            }
+            st.scalars.insert(sp.name().to_string(), fv::bv::Bv::from_u64(sp0, bits));
+            for i in 0..256u64 {
+                st.mem.bytes.insert(sp0 - 128 + i, 0);
+            }
+            let mut ok = true;
+            'graphs: for (_, cfg) in r.instructions() {
+                let view = fv::refil::FnView::of_cfg(cfg);
+                let mut m = match fv::refil::Machine::new(&view, st.clone()) {
+                    Ok(m) => m,
+                    Err(_) => {
+                        ok = false;
+                        break;
+                    }
+                };
+                for _ in 0..200 {
+                    match m.step() {
+                        Ok(fv::refil::Effect::Branch { .. }) => break,
+                        Ok(_) => {}
+                        Err(fv::refil::Fault::NoEdge) => break,
+                        Err(_) => {
+                            ok = false;
+                            break 'graphs;
+                        }
+                    }
+                }
+                st = m.state;
+            }
+            if !ok {
+                obs.exclude("sp-arithmetic:idiom-not-executable-in-isolation");
+                continue;
+            }
+            let want = (sp0 as i128 + delta as i128) as u64 & if bits == 64 { u64::MAX } else { 0xffff_ffff };
+            let got = st.scalars.get(sp.name()).and_then(|v| v.to_u64());
+            if got != Some(want) {
+                bad(format!("C20|{}|sp|arithmetic-width", name), format!("`{}` from {} = 0x{:x}: the lifted code leaves {:x?}, expected 0x{:x}", text, sp.name(), sp0, got, want));
+            }
+            obs.count("sp-arithmetic-idioms-run", 1);
+        }
+    }
+
     // --- MIPS: the byte order of the descriptor is the one the lifted unaligned accesses use ---------
     // The canonical unaligned word store / load of the MIPS32 manual (swl+swr, lwl+lwr with the
     // offsets of the descriptor's byte order), lifted and run on a memory of that byte order, must
